@@ -61,3 +61,19 @@ for sid in sorted(confirm):
     }
     json.dump(out, open(os.path.join(d, "meta.json"), "w"), indent=1)
     print(sid, "->", out["detected_by"] or "NOT DETECTED", prev)
+
+# ---- README table ----
+rows = []
+for sid in sorted(os.listdir(DST)):
+    mp = os.path.join(DST, sid, "meta.json")
+    if not os.path.exists(mp):
+        continue
+    m = json.load(open(mp))
+    det = ", ".join(m.get("detected_by") or []) or "**not detected**"
+    ran = ", ".join(f"{k}:{'VIOLATION' if v['exit']==1 else 'exit '+str(v['exit'])}" for k, v in sorted(m.get("checks_run", {}).items()))
+    rows.append(f"| {sid} | {m.get('property')} | {(m.get('summary') or '').replace('|','/')[:160]} | {(m.get('needs') or '').replace('|','/')[:200]} | {det} | {ran} |")
+with open(os.path.join(DST, "README.md"), "w") as f:
+    f.write("# Seeded property-breaking changes\n\nEach directory: `patch.diff` (apply to a scratch worktree of /repo HEAD with `git apply`), `demo_test.go` (fails with the change, passes without), `meta.json`.\n"
+            "All were confirmed with `tools/confirm_seed.sh` (demo passes on the clean tree, patch applies, demo fails with it, the repository's own suite passes with it) and evaluated with `tools/try_patch.sh` (quick tier).\n\n"
+            "| id | property | change | needs | detected by | checks run |\n|---|---|---|---|---|---|\n" + "\n".join(rows) + "\n")
+print("README written with", len(rows), "rows")
